@@ -96,6 +96,15 @@ Theorem C14_followups_then_matured : forall from to s s' t,
 Proof. exact sim_endblock. Qed.
 Print Assumptions C14_followups_then_matured.
 
+(* a validator slash, as far as it is modelled (the unbonding entries at the slashed validator and the burn from the
+   not-bonded pool; M_MigrateFollow.slash_ubds): the target's moved entries are slashed exactly as the source's would
+   have been, third parties' identically, and the relation is kept — so slashes may be interleaved with follow-ups *)
+Theorem C14_slash_keeps_relation : forall from to s s' v ih fr,
+  from <> to -> pool_nb (cfg s) <> from -> pool_nb (cfg s) <> to ->
+  sim2 from to s s' -> sim2 from to (slash_ubds s v ih fr) (slash_ubds s' v ih fr).
+Proof. exact sim2_slash. Qed.
+Print Assumptions C14_slash_keeps_relation.
+
 Theorem C14_followups_nonvacuous :
   let s := ex_init in let s' := ex_after in
   exists t t', fruns unit ex_ask ex_next tt s ex_ops = Ok (tt, t) /\
@@ -170,6 +179,15 @@ Theorem C14_locked_refused : forall (sigT : Type) (recover : Z -> Z -> sigT -> o
 Proof. exact locked_refused. Qed.
 Print Assumptions C14_locked_refused.
 
+(* ... and an accepted migration carries no vesting schedule over: account objects and locked amounts of BOTH addresses
+   are what they were (observation recorded in docs/C14.md: a vesting source whose locked coins are all delegated has
+   nothing locked, is accepted, and its delegations become the plain target's) *)
+Theorem C14_vesting_not_carried : forall (sigT : Type) (recover : Z -> Z -> sigT -> option Z) s from to sg s',
+  wf s -> migrate_tx sigT recover s from to sg = Ok s' ->
+  accts s' = accts s /\ locked s' = locked s /\ (forall a d, locked_of s' a d = locked_of s a d).
+Proof. exact vesting_not_carried. Qed.
+Print Assumptions C14_vesting_not_carried.
+
 Theorem C14_locked_nonvacuous :
   wf ex_vesting /\ bal_of ex_vesting 2 0 = 5000 /\ locked_of ex_vesting 2 0 = 2000 /\
   migrate_tx unit sig_any ex_vesting 2 6 (Some tt) = Err EFunds /\
@@ -235,6 +253,17 @@ Theorem C14_gov_block_nonvacuous :
   migrate_tx unit sig_any ex_gov 6 7 (Some tt) = Err EAccount.
 Proof. exact gov_block_example. Qed.
 Print Assumptions C14_gov_block_nonvacuous.
+
+(* expedited proposals: a failed one is converted by the end blocker, stays open past its first end time, and keeps
+   blocking its participants until the regular period is over *)
+Theorem C14_gov_expedited_nonvacuous :
+  let s1 := run unit sig_any ex_init [OSubmit unit 1 600 true 100 500; OEndBlock unit 200 205 [] [1]] in
+  let s2 := run unit sig_any ex_init [OSubmit unit 1 600 true 100 500; OEndBlock unit 200 205 [] [1]; OEndBlock unit 1100 1105 [] []] in
+  govwfb s1 = true /\ involved_open s1 1 /\ activeq (gov s1) = [(1010, 1)] /\
+  migrate_tx unit sig_any s1 1 5 (Some tt) = Err EGov /\
+  (exists s', migrate_tx unit sig_any s2 1 5 (Some tt) = Ok s').
+Proof. exact gov_expedited_example. Qed.
+Print Assumptions C14_gov_expedited_nonvacuous.
 
 (* REGRESSION WITNESS, NOT THE MODEL: the validation function as it was before commit f80617f (finding C14-1)
    stopped its walk at the block time and therefore passed whenever all queued end times lay in the future;
